@@ -24,6 +24,7 @@ RULE = ("One evaluation = one seeded execution of 1-3 real clients (same code, "
         "while disconnected, or a fault fired. Distinct: event-log digests "
         "among non-trivial runs.")
 RULE += (' Fault kinds include stall and restart_unwelcome (server restarted with a welcome error).')
+RULE += (' A ninth configuration takes the receiver of an interactive code entry offline after the claim; close() and the words happen while offline.')
 LEVEL_TEXT = ("Seeded exploration. Reference model: the first terminal cause in "
               "the client's own processing order decides the verdict (welcome "
               "error, server error, undecryptable peer message, or close() -> "
